@@ -111,7 +111,7 @@ def rule_a(ctx):
             continue
         row = table.get((fn_key(b), ex))
         if row:
-            counts[(fn_key(b), ex)] = counts.get((fn_key(b), ex), 0) + 1
+            counts[(fn_key(b), ex)] = counts.get((fn_key(b), ex), 0) + drops.incoming_paths(b, bb)
             used.add((fn_key(b), ex))
             ctx.ok("C03-A", key, s, b.id, row, how="table")
             continue
@@ -363,7 +363,7 @@ def rule_d(ctx):
             continue
         row = table.get((fn_key(b), ex))
         if row:
-            counts[(fn_key(b), ex)] = counts.get((fn_key(b), ex), 0) + 1
+            counts[(fn_key(b), ex)] = counts.get((fn_key(b), ex), 0) + drops.incoming_paths(b, bb)
             ctx.ok("C03-D", key, s, b.id, row, how="table")
             continue
         ctx.violation("C03-D", key, s, b.id, "a %s can be destroyed here on a feasible normal path: rendered text inside it would be lost"
